@@ -636,6 +636,9 @@ def parse_lines(text):
             if not p.is_op("\\"):
                 p.err("expected \\ or end of line after statement")
             p.i += 1
+            if p.i >= len(p.t):
+                # a separator with nothing behind it: BASIC09 wants a statement after every backslash
+                p.err("statement expected after \\ at the end of the line")
         if first and label is not None:
             s = St("rem", lineno, text="")
             s.label = label
